@@ -3,6 +3,7 @@ package checks
 import (
 	"fmt"
 	"image"
+	"os"
 
 	webp "github.com/deepteams/webp"
 
@@ -78,6 +79,15 @@ func runC01(c *ev.Ctx) {
 	// backward references at the far end of the distance range need > 2^20 pixels
 	for k := 0; k < c.N(8, 48); k++ {
 		e := c01Case{Class: "farrepeat", Alpha: "opaque", Type: "NRGBA", W: 1024, H: 1040 + 20*k, Method: []int{4, 2, 6, 3, 5, 0, 1}[k%7], Quality: []float32{80, 100, 90, 76}[k%4]}
+		cases = append(cases, ev.Case{Idx: len(cases), Desc: fmt.Sprintf("%+v", e), Data: e})
+	}
+	// Quality >= 90 takes the encoder's full remap pass, which may leave histogram clusters without any
+	// tile; measured on the tree before repo commit a6194c6, busy pictures with a flat band and noise alpha
+	// of 4000..6000 pixels at Method 5/6 empty the last cluster in about 0.4% of draws (D22).
+	for k := 0; k < c.N(2000, 100000); k++ {
+		r := rng(c, len(cases)+3<<20)
+		e := c01Case{Class: []string{"bands", "bands", "bands", "pillarbox", "multiband"}[k%5], Alpha: "noise", Type: "NRGBA", W: 56 + r.Intn(48), H: 44 + r.Intn(24),
+			Method: 5 + k%2, Quality: []float32{90, 92, 95, 99}[r.Intn(4)], Exact: r.Intn(2) == 0}
 		cases = append(cases, ev.Case{Idx: len(cases), Desc: fmt.Sprintf("%+v", e), Data: e})
 	}
 	if c.Thorough() {
@@ -167,6 +177,10 @@ func c01One(c *ev.Ctx, cs ev.Case, lwOK bool) {
 	}
 	class := "pixel-mismatch"
 	attrs := map[string]string{"side": side, "sig": sig, "type": cc.Type}
+	if dir := os.Getenv("VERIF_DUMP_DIR"); dir != "" { // debugging aid: the source picture of a failing case
+		os.MkdirAll(dir, 0o755)
+		os.WriteFile(fmt.Sprintf("%s/c01-%d-%dx%d.nrgba", dir, cs.Idx, cc.W, cc.H), img.Tight(want), 0o644)
+	}
 	if side == "encoder" && (cc.Type == "RGBA" || cc.Type == "RGBA64") && c01OnlyPremulRounding(src, want, got) {
 		class = "premultiplied-source-rounding"
 	}
